@@ -15,6 +15,8 @@ CONSTANTS MaxItems, MaxDepth
 TextKinds  == {"plain", "entity", "nument", "nonascii", "crlf", "cr", "dollar", "gt", "amp", "quotes", "ws"}
 AttrStyles == {"none", "dq", "sq", "unquoted", "valueless", "mixedcase", "spaced", "multi", "entval", "gtval", "nsprefix"}
 TagNames   == {"div", "p"}
+\* tag soup: start tags that are never closed (any spelling; an end tag closes the element of exactly its own spelling)
+SoupNames  == {"p", "P", "li", "LI"}
 
 VARIABLES doc,    \* sequence of items
           stack,  \* open element names
@@ -45,9 +47,11 @@ AddClose   == ~fin /\ Len(stack) > 0 /\ \E sp \in {"tight", "space"} :
                  /\ stack' = SubSeq(stack, 1, Len(stack) - 1) /\ UNCHANGED <<xml, fin>>
 AddVoid    == Room /\ \E s \in {"selfclose", "selfclose-tight", "unclosed"}, a \in {"none", "dq", "valueless"} :
                  doc' = Append(doc, [k |-> "void", d |-> s, a |-> a]) /\ UNCHANGED <<stack, xml, fin>>
+AddUnclosed == Room /\ \E n \in SoupNames :
+                 doc' = Append(doc, [k |-> "uopen", d |-> "none", n |-> n]) /\ UNCHANGED <<stack, xml, fin>>
 Finish     == ~fin /\ stack = <<>> /\ Len(doc) > 0 /\ fin' = TRUE /\ UNCHANGED <<doc, stack, xml>>
 
-Next == AddText \/ AddComment \/ AddCData \/ AddPI \/ AddDoctype \/ AddOpen \/ AddClose \/ AddVoid \/ Finish
+Next == AddText \/ AddComment \/ AddCData \/ AddPI \/ AddDoctype \/ AddOpen \/ AddClose \/ AddVoid \/ AddUnclosed \/ Finish
 
 Spec == Init /\ [][Next]_vars
 
